@@ -33,6 +33,10 @@ CHECKS = {
    technique="deterministic simulation: same seeded assemble() histories (consecutive calls, calls after failed and fault-injected calls), citation oracle by index arithmetic over the generated catalogue plus citation-free reference execution in a pristine process",
    text="Every product returned in the simulated histories is checked by an oracle computed from the generated catalogue only: bracketed in-range indices, each inherited feature (traced by a unique note tag) cites exactly the references its source cited, each cited reference listed once, product equal to the citation-free assembly, inputs' citation data unchanged. Seeded sampling of pools (0-5 references, shared by object or by content, different positions in different records) and histories: exploration.",
    note="Generator restrictions keep the check inside the statement: well-formed in-range citations, no record lists two references equal by content, citation lists not aliased. References are told apart by title."),
+ "C20": dict(engine="registry-world", category="exploration", design_ref="DESIGN.md 3.4",
+   technique="deterministic simulation with fault injection: real registry classes over a simulated store (seeded listing permutations, short reads, injected I/O errors at scandir/getinfo/openbin/read offsets) and seeded combination histories, checked operation by operation against a dictionary model; exhaustive sweep of the five embedded registries",
+   text="Seeded search over directory contents, registry combinations and lookup keys, with the storage medium under simulator control; fault-free and fault-injecting batches are separate; after any injected I/O error every later operation must be exact again. All 362 items of the five embedded archives (built by the repo's own build_ext) are looked up in every run of the check. Sampling of configurations and fault placements: exploration.",
+   note="Storage medium is a stub (MemoryFS primitives / in-memory archive bytes below real BufferedReader, tarfile, gzip, GenBank parser, FS.filterdir/open). Inputs stay inside the precondition (typed plasmids, distinct stems, case-sensitive store, hashable keys). Resistance judged against the kits' label convention."),
 }
 def main():
     checks = []
